@@ -38,6 +38,10 @@ type c11World struct {
 	ops      []string
 	addsTo   map[netip.Addr]int
 	nt       bool
+	// focus: one peer that a third of the operations are about (several routes
+	// to it over other peers, re-announcements, its link going down), so that
+	// long histories about one destination are frequent.
+	focus netip.Addr
 }
 
 func c11EntryKey(e *m.RoutingTableEntry, withExpiry bool) string {
@@ -166,6 +170,17 @@ func c11Setup(c *core.Case) *c11World {
 	return w
 }
 
+// focusOr returns the focus peer (one time in two) or any peer.
+func (w *c11World) focusOr(label string) netip.Addr {
+	if !w.focus.IsValid() {
+		w.focus = w.peers[w.c.Pick("focus", len(w.peers))]
+	}
+	if w.c.Bool(label + ".focus") {
+		return w.focus
+	}
+	return w.peers[w.c.Pick(label, len(w.peers))]
+}
+
 func (w *c11World) pickAddr(label string) netip.Addr {
 	return w.universe[w.c.Pick(label, len(w.universe))]
 }
@@ -192,6 +207,17 @@ func (w *c11World) opAdd() {
 	switch shape {
 	case 4: // a route the table holds is announced again: same relays and labels, other delays (latency fluctuates between rounds)
 		x := existing[c.Pick("add.again", len(existing))]
+		if c.Bool("add.again.focus") {
+			var about []m.RoutingTableEntry
+			for _, y := range existing {
+				if y.DstIP == w.focus {
+					about = append(about, y)
+				}
+			}
+			if len(about) > 0 {
+				x = about[c.Pick("add.again.focus.which", len(about))]
+			}
+		}
 		hops := append([]m.SwitchHop(nil), x.Path.Hops...)
 		for i := 0; i < len(hops)-1; i++ {
 			hops[i].Delay = c11Delay(c, "add.again.delay")
@@ -200,7 +226,7 @@ func (w *c11World) opAdd() {
 			Path: m.SwitchPath{Hops: hops}, Expires: time.Now().Add(time.Duration(c.Int("add.exp.min", 11, 600)) * time.Minute)}
 		c.Class("route-announced-again-with-other-delays")
 	case 0: // link registration
-		p := w.peers[c.Pick("add.peer", len(w.peers))]
+		p := w.focusOr("add.peer")
 		e = m.RoutingTableEntry{DstIP: p, NextHop: p, Source: m.RouteSourcePeer}
 	case 1: // announce from a peer
 		p := w.peers[c.Pick("add.peer", len(w.peers))]
@@ -212,9 +238,9 @@ func (w *c11World) opAdd() {
 	default: // gossip / discovered via k relays
 		nh := w.peers[c.Pick("add.nexthop", len(w.peers))]
 		dst := w.pickAddr("add.dst")
-		if c.Chance("add.dst.is-a-peer", 1, 5) {
+		if c.Chance("add.dst.is-a-peer", 1, 3) {
 			// a router that is (or becomes) a direct peer is also known through others
-			dst = w.peers[c.Pick("add.dst.peer", len(w.peers))]
+			dst = w.focusOr("add.dst.peer")
 			if dst == nh {
 				dst = w.pickAddr("add.dst")
 			}
@@ -244,6 +270,21 @@ func (w *c11World) opAdd() {
 		return
 	}
 	w.addsTo[e.DstIP]++
+	{
+		peer, others := false, 0
+		for i := range after {
+			if after[i].DstIP == e.DstIP {
+				if after[i].Source == m.RouteSourcePeer {
+					peer = true
+				} else {
+					others++
+				}
+			}
+		}
+		if peer && others >= 3 {
+			c.Class("destination-with-a-peer-route-and-three-others")
+		}
+	}
 	// Present now.
 	want := c11EntryKey(&e, false)
 	found := false
@@ -313,6 +354,9 @@ func (w *c11World) markRemovalNT() {
 func (w *c11World) opRemoveNextHop() {
 	c := w.c
 	p := w.pickAddr("rm.nexthop")
+	if c.Chance("rm.nexthop.focus", 1, 3) {
+		p = w.focus
+	}
 	before := w.tbl.VerifEntries()
 	removed := w.tbl.RemoveNextHop(p)
 	after := w.tbl.VerifEntries()
